@@ -1,7 +1,117 @@
 import Props.Defs
 import Proofs.SortLemmas
-namespace Coma.Proofs
+namespace Coma.Proofs.Fields
 open Coma Coma.Spec
+
+/-- the fields of an `XRow` produced from a row -/
+def XRowOf (cfg : Cfg) (x : XRow) (r : Row) : Prop :=
+  x.qid = r.queryId ∧ x.rid = r.referenceId ∧ x.qStart = r.qStart ∧ x.qEnd = r.qEnd ∧
+    x.rStart = r.rStart ∧ x.rEnd = r.rEnd ∧ x.rev = r.rev ∧ x.qLen = r.queryLength ∧ x.rLen = r.referenceLength ∧
+    x.alignedRest = r.alignedRest ∧ x.pairs = r.pairs.map (fun p => (p.r.site, p.q.site)) ∧
+    x.conf100 = (r.confidence * 100) / (cfg.den : Int)
+
+theorem toXRow_spec (cfg : Cfg) (cigar : List Pr → Except Err String) (i : Nat) (r : Row) (x : XRow)
+    (h : r.toXRow cfg cigar i = .ok x) : x.entryId = i ∧ XRowOf cfg x r := by
+  unfold Row.toXRow at h
+  cases hc : cigar r.pairs with
+  | error e => simp [hc, bind, Except.bind] at h
+  | ok s =>
+    simp [hc, bind, Except.bind, pure, Except.pure] at h
+    subst h
+    exact ⟨rfl, rfl, rfl, rfl, rfl, rfl, rfl, rfl, rfl, rfl, rfl, rfl, rfl⟩
+
+theorem renderRowsFrom_spec (cfg : Cfg) (rows : List Row) : ∀ (i : Nat) (lines : List String),
+    renderRowsFrom cfg i rows = .ok lines →
+    lines.length = rows.length ∧
+    ∀ k, k < rows.length → ∃ x : XRow, lines[k]? = some x.line ∧ x.entryId = i + k ∧
+      ∃ r, rows[k]? = some r ∧ XRowOf cfg x r := by
+  induction rows with
+  | nil =>
+    intro i lines h
+    simp [renderRowsFrom] at h
+    subst h
+    simp
+  | cons r rs ih =>
+    intro i lines h
+    unfold renderRowsFrom at h
+    cases hx : r.toXRow cfg (cigarOf aggregate) i with
+    | error e => simp [hx, bind, Except.bind] at h
+    | ok x =>
+      cases ht : renderRowsFrom cfg (i + 1) rs with
+      | error e => simp [hx, ht, bind, Except.bind] at h
+      | ok tl =>
+        simp [hx, ht, bind, Except.bind, pure, Except.pure] at h
+        subst h
+        obtain ⟨hlen, hk⟩ := ih (i + 1) tl ht
+        obtain ⟨hid, hxr⟩ := toXRow_spec cfg _ i r x hx
+        refine ⟨by simp [hlen], ?_⟩
+        intro k hklt
+        cases k with
+        | zero => exact ⟨x, by simp, by simp [hid], r, by simp, hxr⟩
+        | succ k =>
+          have hk' : k < rs.length := by simpa using hklt
+          obtain ⟨x', h1, h2, r', h3, h4⟩ := hk k hk'
+          exact ⟨x', by simpa using h1, by omega, r', by simpa using h3, h4⟩
+
+theorem lbl_eq_iff (l : Lbl) (s p : Int) : l = ⟨s, p⟩ ↔ l.site = s ∧ l.pos = p := by
+  cases l; simp
+
+theorem labelsFwd_length (i : Int) (ps : List Int) : (labelsFwd i ps).length = ps.length := by
+  induction ps generalizing i with
+  | nil => rfl
+  | cons p ps ih => simp [labelsFwd, ih]
+
+theorem labelsRev_length (i e : Int) (ps : List Int) : (labelsRev i e ps).length = ps.length := by
+  induction ps generalizing i with
+  | nil => rfl
+  | cons p ps ih => simp [labelsRev, ih]
+
+theorem mem_labelsFwd (ps : List Int) : ∀ (i : Int) (l : Lbl),
+    l ∈ labelsFwd i ps ↔ ∃ k : Nat, ∃ p, ps[k]? = some p ∧ l.site = i + (k : Int) ∧ l.pos = p := by
+  induction ps with
+  | nil => intro i l; simp [labelsFwd]
+  | cons a as ih =>
+    intro i l
+    simp only [labelsFwd, List.mem_cons, ih, lbl_eq_iff]
+    constructor
+    · rintro (⟨h1, h2⟩ | ⟨k, p, h1, h2, h3⟩)
+      · exact ⟨0, a, by simp, by simpa using h1, h2⟩
+      · exact ⟨k + 1, p, by simpa using h1, by rw [h2]; push_cast; omega, h3⟩
+    · rintro ⟨k, p, h1, h2, h3⟩
+      cases k with
+      | zero =>
+        left
+        simp at h1
+        exact ⟨by simpa using h2, by rw [h3, h1]⟩
+      | succ k =>
+        right
+        exact ⟨k, p, by simpa using h1, by rw [h2]; push_cast; omega, h3⟩
+
+theorem mem_labelsRev (e : Int) (ps : List Int) : ∀ (i : Int) (l : Lbl),
+    l ∈ labelsRev i e ps ↔ ∃ k : Nat, ∃ p, ps[k]? = some p ∧ l.site = i - (k : Int) ∧ l.pos = e - p := by
+  induction ps with
+  | nil => intro i l; simp [labelsRev]
+  | cons a as ih =>
+    intro i l
+    simp only [labelsRev, List.mem_cons, ih, lbl_eq_iff]
+    constructor
+    · rintro (⟨h1, h2⟩ | ⟨k, p, h1, h2, h3⟩)
+      · exact ⟨0, a, by simp, by simpa using h1, h2⟩
+      · exact ⟨k + 1, p, by simpa using h1, by rw [h2]; push_cast; omega, h3⟩
+    · rintro ⟨k, p, h1, h2, h3⟩
+      cases k with
+      | zero =>
+        left
+        simp at h1
+        exact ⟨by simpa using h2, by rw [h3, h1]⟩
+      | succ k =>
+        right
+        exact ⟨k, p, by simpa using h1, by rw [h2]; push_cast; omega, h3⟩
+
+end Coma.Proofs.Fields
+
+namespace Coma.Proofs
+open Coma Coma.Spec Coma.Proofs.Fields
 
 /-- label numbering and coordinates: the k-th label from the left has number k+1+shift; on the
     reverse strand its coordinate is mirrored about length-1, and the list is produced from the
@@ -10,7 +120,32 @@ theorem labels_spec (m : OMap) (rev : Bool) :
     (m.labels rev).length = m.positions.length ∧
     ∀ l, l ∈ m.labels rev ↔ ∃ k : Nat, ∃ p, m.positions[k]? = some p ∧ l.site = (k : Int) + 1 + m.shift ∧
         l.pos = (if rev then m.length - 1 - p else p) := by
-  sorry
+  cases rev with
+  | false =>
+    refine ⟨by simp [OMap.labels, labelsFwd_length], ?_⟩
+    intro l
+    simp only [OMap.labels, Bool.false_eq_true, if_false, mem_labelsFwd]
+    constructor
+    · rintro ⟨k, p, h1, h2, h3⟩
+      exact ⟨k, p, h1, by omega, h3⟩
+    · rintro ⟨k, p, h1, h2, h3⟩
+      exact ⟨k, p, h1, by omega, h3⟩
+  | true =>
+    refine ⟨by simp [OMap.labels, labelsRev_length], ?_⟩
+    intro l
+    simp only [OMap.labels, if_true, mem_labelsRev]
+    constructor
+    · rintro ⟨k, p, h1, h2, h3⟩
+      have hk : k < m.positions.length := by
+        have := (List.getElem?_eq_some_iff.mp h1).1
+        simpa using this
+      rw [List.getElem?_reverse hk] at h1
+      exact ⟨m.positions.length - 1 - k, p, h1, by omega, h3⟩
+    · rintro ⟨k, p, h1, h2, h3⟩
+      have hk : k < m.positions.length := (List.getElem?_eq_some_iff.mp h1).1
+      refine ⟨m.positions.length - 1 - k, p, ?_, by omega, h3⟩
+      rw [List.getElem?_reverse (by omega)]
+      rw [← h1]; congr 1; omega
 
 /-- header of a row whose pairs are listed in ascending reference order: reference start/end are
     the coordinates of the first/last listed pair; query start/end those of the first/last pair
@@ -26,7 +161,24 @@ theorem row_create_fields (P : Params) (segs : List Seg) (qid rid ql rl : Int) (
     row.queryId = qid ∧ row.referenceId = rid ∧ row.queryLength = ql ∧ row.referenceLength = rl ∧ row.rev = rev ∧
     row.alignedRest = false ∧ row.segments = segs ∧
     row.confidence = sumInts (segs.map (fun s => sumScores P s.items)) := by
-  sorry
+  intro row
+  have hsort : isort (fun (p : Pr) => p.r.pos) (segs.flatMap Seg.pairs) = segs.flatMap Seg.pairs :=
+    isort_of_sorted _ _ ha
+  have h1 : row.rStart = first.r.pos := by
+    show ((isort (fun (p : Pr) => p.r.pos) (segs.flatMap Seg.pairs)).head?.getD nullPr).r.pos = _
+    rw [hsort, hf]; rfl
+  have h2 : row.rEnd = last.r.pos := by
+    show ((isort (fun (p : Pr) => p.r.pos) (segs.flatMap Seg.pairs)).getLast?.getD nullPr).r.pos = _
+    rw [hsort, hl]; rfl
+  have h3 : row.qStart = (if rev then last else first).q.pos := by
+    show (if !rev then (isort (fun (p : Pr) => p.r.pos) (segs.flatMap Seg.pairs)).head?.getD nullPr
+      else (isort (fun (p : Pr) => p.r.pos) (segs.flatMap Seg.pairs)).getLast?.getD nullPr).q.pos = _
+    rw [hsort, hf, hl]; cases rev <;> rfl
+  have h4 : row.qEnd = (if rev then first else last).q.pos := by
+    show (if !rev then (isort (fun (p : Pr) => p.r.pos) (segs.flatMap Seg.pairs)).getLast?.getD nullPr
+      else (isort (fun (p : Pr) => p.r.pos) (segs.flatMap Seg.pairs)).head?.getD nullPr).q.pos = _
+    rw [hsort, hf, hl]; cases rev <;> rfl
+  exact ⟨h1, h2, h3, h4, rfl, rfl, rfl, rfl, rfl, rfl, rfl, rfl⟩
 
 /-- a candidate row carries the ids and lengths of the maps it was built from -/
 theorem alignerAlign_fields (P : Params) (C : ChainCfg) (ref qry : OMap) (peaks : List Int) (rev : Bool) (it : Int)
@@ -34,7 +186,67 @@ theorem alignerAlign_fields (P : Params) (C : ChainCfg) (ref qry : OMap) (peaks 
     row.queryId = qry.id ∧ row.referenceId = ref.id ∧ row.queryLength = qry.length ∧
     row.referenceLength = ref.length ∧ row.rev = rev ∧ row.alignedRest = false ∧
     row.confidence = sumInts (row.segments.map (fun s => sumScores P s.items)) := by
-  sorry
+  unfold alignerAlign at h
+  cases hs : segmentsOfPeaks P ref qry rev it peaks with
+  | error e => simp [hs, bind, Except.bind] at h
+  | ok segs =>
+    cases hr : resolveConflicts P C segs with
+    | error e => simp [hs, hr, bind, Except.bind] at h
+    | ok res =>
+      simp [hs, hr, bind, Except.bind, pure, Except.pure] at h
+      subst h
+      refine ⟨rfl, rfl, rfl, rfl, rfl, rfl, rfl⟩
+
+namespace Fields
+
+/-- shape of a second-pass fragment relative to the whole query -/
+def FragOK (row : Row) (query : OMap) (f : OMap) : Prop :=
+  f.id = row.queryId ∧ f.length = row.queryLength ∧
+    ((∃ t, f.positions = query.positions.take t ∧ f.shift = 0) ∨
+     (∃ d, f.positions = query.positions.drop d ∧
+        f.shift = (query.positions.length : Int) - ((query.positions.drop d).length : Int)))
+
+theorem pySliceTo_eq_take {α} (xs : List α) (j : Int) : ∃ t, pySliceTo xs j = xs.take t := by
+  unfold pySliceTo; split <;> exact ⟨_, rfl⟩
+
+theorem pySliceFrom_eq_drop {α} (xs : List α) (i : Int) : ∃ d, pySliceFrom xs i = xs.drop d := by
+  unfold pySliceFrom; split <;> exact ⟨_, rfl⟩
+
+theorem fragOK_to (row : Row) (query : OMap) (j : Int) :
+    FragOK row query { id := row.queryId, length := row.queryLength,
+                       positions := pySliceTo query.positions j, shift := 0 } := by
+  obtain ⟨t, ht⟩ := pySliceTo_eq_take query.positions j
+  exact ⟨rfl, rfl, Or.inl ⟨t, ht, rfl⟩⟩
+
+theorem fragOK_from (row : Row) (query : OMap) (i : Int) :
+    FragOK row query { id := row.queryId, length := row.queryLength,
+                       positions := pySliceFrom query.positions i,
+                       shift := (query.positions.length : Int) - ((pySliceFrom query.positions i).length : Int) } := by
+  obtain ⟨d, hd⟩ := pySliceFrom_eq_drop query.positions i
+  exact ⟨rfl, rfl, Or.inr ⟨d, hd, by simp only [hd]⟩⟩
+
+theorem fragOK_labels (row : Row) (query f : OMap) (hlen : query.length = row.queryLength)
+    (hshift : query.shift = 0) (hf : FragOK row query f) :
+    ∀ rev, ∀ l ∈ f.labels rev, l ∈ query.labels rev := by
+  intro rev l hl
+  obtain ⟨_, hfl, hpos⟩ := hf
+  rw [(labels_spec f rev).2] at hl
+  rw [(labels_spec query rev).2]
+  obtain ⟨k, p, h1, h2, h3⟩ := hl
+  rw [hfl, ← hlen] at h3
+  rcases hpos with ⟨t, hp, hs⟩ | ⟨d, hp, hs⟩
+  · rw [hp, List.getElem?_take] at h1
+    split at h1
+    · exact ⟨k, p, h1, by omega, h3⟩
+    · cases h1
+  · rw [hp, List.getElem?_drop] at h1
+    have hk : d + k < query.positions.length := (List.getElem?_eq_some_iff.mp h1).1
+    refine ⟨d + k, p, h1, ?_, h3⟩
+    rw [List.length_drop] at hs
+    push_cast
+    omega
+
+end Fields
 
 /-- second-pass fragments keep the molecule id and the full length, and their labels (on either
     strand) are labels of the whole query with the same numbers and coordinates -/
@@ -44,7 +256,75 @@ theorem fragment_labels_subset (row : Row) (queries : List OMap) (query : OMap) 
     (h : unalignedFragments row queries = .ok frags) :
     ∀ f ∈ frags, f.id = row.queryId ∧ f.length = row.queryLength ∧
       ∀ rev, ∀ l ∈ f.labels rev, l ∈ query.labels rev := by
-  sorry
+  suffices hok : ∀ f ∈ frags, FragOK row query f by
+    intro f hf
+    exact ⟨(hok f hf).1, (hok f hf).2.1, fragOK_labels row query f hlen hshift (hok f hf)⟩
+  unfold unalignedFragments at h
+  simp only [hq] at h
+  have hparts : ∀ p1 p2,
+      (if (!row.rev) = true then
+        match indexOf? row.qStart query.positions, indexOf? row.qEnd query.positions with
+        | some i, some j => Except.ok (pySliceTo query.positions (↑i + 3), pySliceFrom query.positions (↑j - 2))
+        | _, _ => (Except.error Err.valueError : Except Err (List Int × List Int))
+      else
+        Except.ok
+          (pySliceTo query.positions ((row.sortedPairs.getLast?.getD nullPr).q.site + 3),
+            pySliceFrom query.positions ((row.sortedPairs.head?.getD nullPr).q.site - 2))) = Except.ok (p1, p2) →
+      ∃ j i, p1 = pySliceTo query.positions j ∧ p2 = pySliceFrom query.positions i := by
+    intro p1 p2 hp
+    split at hp
+    · split at hp
+      · injection hp with hp; injection hp with h1 h2
+        exact ⟨_, _, h1.symm, h2.symm⟩
+      · cases hp
+    · injection hp with hp; injection hp with h1 h2
+      exact ⟨_, _, h1.symm, h2.symm⟩
+  have close1 : ∀ (l : List OMap), (∀ f ∈ l, FragOK row query f) →
+      (Except.ok l : Except Err (List OMap)) = Except.ok frags → ∀ f ∈ frags, FragOK row query f := by
+    intro l hl he
+    injection he with he; subst he; exact hl
+  split at h
+  · exact close1 _ (by simp) h
+  · split at h
+    · split at h
+      · split at h
+        · cases h
+        · split at h
+          · exact close1 _ (by simp) h
+          · refine close1 _ ?_ h
+            intro f hf
+            simp only [List.mem_cons, List.mem_nil_iff, or_false] at hf
+            subst hf
+            exact fragOK_from row query _
+      · refine close1 _ ?_ h
+        intro f hf
+        simp only [List.mem_cons, List.mem_nil_iff, or_false] at hf
+        subst hf
+        exact fragOK_to row query _
+    · split at h
+      · cases h
+      · rename_i p1 p2 heq
+        obtain ⟨j, i, rfl, rfl⟩ := hparts p1 p2 heq
+        split at h
+        · refine close1 _ ?_ h
+          intro f hf
+          simp only [List.mem_cons, List.mem_nil_iff, or_false] at hf
+          rcases hf with rfl | rfl
+          · exact fragOK_to row query _
+          · exact fragOK_from row query _
+        · split at h
+          · refine close1 _ ?_ h
+            intro f hf
+            simp only [List.mem_cons, List.mem_nil_iff, or_false] at hf
+            subst hf
+            exact fragOK_to row query _
+          · split at h
+            · refine close1 _ ?_ h
+              intro f hf
+              simp only [List.mem_cons, List.mem_nil_iff, or_false] at hf
+              subst hf
+              exact fragOK_from row query _
+            · exact close1 _ (by simp) h
 
 /-- XmapEntryID counts 1,2,3,… and the columns are the fields in the documented order -/
 theorem renderRows_numbering (cfg : Cfg) (rows : List Row) (lines : List String)
@@ -55,7 +335,11 @@ theorem renderRows_numbering (cfg : Cfg) (rows : List Row) (lines : List String)
         x.rStart = r.rStart ∧ x.rEnd = r.rEnd ∧ x.rev = r.rev ∧ x.qLen = r.queryLength ∧ x.rLen = r.referenceLength ∧
         x.alignedRest = r.alignedRest ∧ x.pairs = r.pairs.map (fun p => (p.r.site, p.q.site)) ∧
         x.conf100 = (r.confidence * 100) / (cfg.den : Int) := by
-  sorry
+  obtain ⟨hlen, hk⟩ := renderRowsFrom_spec cfg rows 1 lines h
+  refine ⟨hlen, ?_⟩
+  intro k hklt
+  obtain ⟨x, h1, h2, r, h3, h4⟩ := hk k hklt
+  exact ⟨x, h1, by omega, r, h3, h4⟩
 
 theorem xrow_fields_columns (x : XRow) :
     x.fields.length = 15 ∧ x.fields[0]? = some (renderNat x.entryId) ∧ x.fields[1]? = some (renderInt x.qid) ∧
@@ -65,6 +349,6 @@ theorem xrow_fields_columns (x : XRow) :
     x.fields[8]? = some (renderFixed 2 x.conf100) ∧ x.fields[9]? = some x.hitEnum ∧
     x.fields[10]? = some (renderFixed 1 (x.qLen * 10)) ∧ x.fields[11]? = some (renderFixed 1 (x.rLen * 10)) ∧
     x.fields[12]? = some (if x.alignedRest then "True" else "False") ∧ x.fields[14]? = some (renderPairs x.pairs) := by
-  sorry
+  simp [XRow.fields]
 
 end Coma.Proofs
